@@ -74,6 +74,10 @@ def lower_unit(unit, workdir):
             protos.append(head + ';')
             if lines is not None:
                 bodies.append([head] + lines)
+        if hasattr(unit, 'lower_regions'):
+            for head, lines in unit.lower_regions(docs, prof):
+                protos.append(head + ';')
+                bodies.append([head] + lines)
         prof.fn_unlowered = unlowered
         # file-level constants referenced by the lowered text (e.g. static constexpr size_t k = 8)
         if prof.needed_globals:
@@ -148,7 +152,7 @@ def splice(unit, low, harnesses, out_c, mode='proof'):
     for body in low['bodies']:
         head = body[0]
         for ln in body:
-            m = re.match(r'^(\s*)/\*@(\w+):([\w:]+)@\*/\s*$', ln)
+            m = re.match(r'^(\s*)/\*@(\w+):([\w:$]+)@\*/\s*$', ln)
             if not m:
                 lines.append(ln)
                 continue
@@ -164,8 +168,12 @@ def splice(unit, low, harnesses, out_c, mode='proof'):
                     # being verified; leaving it out where the contract replaces a call assumes less (sound)
                     if opts.get('enforce_only'):
                         lines.append('#ifdef ENFORCING_%s' % fn)
+                    if opts.get('replace_only'):
+                        # assumed where the contract replaces a call, never proved: only used for the
+                        # determinism of a function whose frame shows it is pure (listed as an assumption)
+                        lines.append('#ifndef ENFORCING_%s' % fn)
                     lines.append('__CPROVER_%s(%s)%s' % (ckind, subst(text), ' /*L:%s*/' % label if label else ''))
-                    if opts.get('enforce_only'):
+                    if opts.get('enforce_only') or opts.get('replace_only'):
                         lines.append('#endif')
                     if label:
                         labels[label] = props
@@ -174,6 +182,10 @@ def splice(unit, low, harnesses, out_c, mode='proof'):
                     lines.append(ind + 'GHOST(%s)' % subst(spec['prologue']))
                 if mode == 'bounded' and spec.get('bounded_prologue'):
                     lines.append(ind + 'GHOST(%s)' % subst(spec['bounded_prologue']))
+            elif kind == 'AFTERDECL':
+                g = spec.get('after_decl', {}).get(parts[1])
+                if g and fn not in breaks:
+                    lines.append(ind + 'GHOST(%s)' % subst(g))
             else:
                 k = int(parts[1])
                 lp = spec.get('loops', {}).get(k)
@@ -197,6 +209,8 @@ def splice(unit, low, harnesses, out_c, mode='proof'):
     lines += post
     for h in harnesses:
         lines += harness_text(unit, prof, h)
+        for lab, props in (h.get('labels') or {}).items():
+            labels[lab] = props
     with open(out_c, 'w') as f:
         f.write('\n'.join(lines) + '\n')
     label_by_line = {}
@@ -284,7 +298,7 @@ def run_harness(unit, h, src_c, workdir, label_by_line, mode='proof', solver=Non
     name = h['name'] + ('' if mode == 'proof' else '.bounded')
     base = os.path.join(workdir, name)
     entry = 'h_' + h['name']
-    defs = ['-DVERIF', '-DENFORCING_' + h['fn']] + ['-D' + f for f in h.get('flags', [])]
+    defs = ['-DVERIF'] + ([] if h.get('lemma') else ['-DENFORCING_' + h['fn']]) + ['-D' + f for f in h.get('flags', [])]
     if mode == 'bounded':
         defs += ['-DBL_BOUNDED'] + ['-D' + d for d in h.get('bounded_defs', ['NMAX=2'])]
     t0 = time.time()
@@ -292,7 +306,9 @@ def run_harness(unit, h, src_c, workdir, label_by_line, mode='proof', solver=Non
                     log=base + '.gotocc.log', timeout=300)
     if rc != 0:
         raise Break('TOOL BREAK: goto-cc failed for %s/%s (see %s)\n%s' % (unit.NAME, name, base + '.gotocc.log', out[-1500:]))
-    gi = ['goto-instrument', '--no-malloc-may-fail', '--dfcc', entry, '--enforce-contract', cn + h['fn']]
+    gi = ['goto-instrument', '--no-malloc-may-fail', '--dfcc', entry]
+    if not h.get('lemma'):
+        gi += ['--enforce-contract', cn + h['fn']]
     repl = list(h.get('replace', []) if mode == 'proof' else h.get('bounded_replace', []))
     if mode == 'proof':
         # library models that exist only as contracts in the modular route (loops inside the real shim body)
@@ -301,7 +317,7 @@ def run_harness(unit, h, src_c, workdir, label_by_line, mode='proof', solver=Non
             if r not in repl and re.search(r'\b%s\(' % r, text.split('/*@@BODIES@@*/')[-1]):
                 repl.append(r)
     for r in repl:
-        gi += ['--replace-call-with-contract', r if r.startswith('bl_') else cn + r]
+        gi += ['--replace-call-with-contract', r if (r.startswith('bl_') or r.startswith(cn)) else cn + r]
     if mode == 'proof':
         gi += ['--apply-loop-contracts']
     gi += [base + '.a.gb', base + '.b.gb']
@@ -311,9 +327,9 @@ def run_harness(unit, h, src_c, workdir, label_by_line, mode='proof', solver=Non
     if mode == 'bounded':
         # the bounded stand-in looks for a concrete counterexample to the function's own ensures
         # clauses; it runs with the memory-safety checks only (stated in the evidence)
-        cb = ['cbmc', base + '.b.gb', '--trace'] + BOUNDED_CHECKS + ['--unwind', str(h.get('unwind', 6)), '--unwinding-assertions']
+        cb = ['cbmc', base + '.b.gb'] + BOUNDED_CHECKS + ['--unwind', str(h.get('unwind', 6)), '--unwinding-assertions']
     else:
-        cb = ['cbmc', base + '.b.gb', '--trace'] + CBMC_CHECKS + list(h.get('cbmc_args', []))
+        cb = ['cbmc', base + '.b.gb'] + CBMC_CHECKS + list(h.get('cbmc_args', []))
         if h.get('unwindset'):
             # loops the sidecar marks `unwound_loops` have a small constant trip count: they are
             # unwound completely (the unwinding assertion proves the bound)
@@ -343,8 +359,13 @@ def run_harness(unit, h, src_c, workdir, label_by_line, mode='proof', solver=Non
         if r['file'] and os.path.basename(r['file']) == src_name and r['line'] in label_by_line:
             r['label'] = label_by_line[r['line']]
     fails = [r for r in res if r['status'] != 'SUCCESS' and 'VACUITY_CANARY' not in r['desc']]
-    for r in fails:
-        r['trace'] = extract_trace(out, r['id'])
+    if fails and status == 'failed':
+        # second pass: counterexample traces for the failed obligations only (labelled clauses first)
+        want = sorted(fails, key=lambda r: (0 if (r.get('label') and 'postcondition' in r['id']) else 1 if r.get('label') else 2))[:4]
+        cbt = cb + ['--trace'] + sum([['--property', r['id']] for r in want], [])
+        rc2, out2, dt2 = sh(cbt, log=base + '.trace.log', timeout=min(to, 300))
+        for r in fails:
+            r['trace'] = extract_trace(out2, r['id'])
     guards = []
     if 'ignoring' in out and 'forall' in out:
         guards.append('quantifier ignored by back end')
@@ -353,6 +374,27 @@ def run_harness(unit, h, src_c, workdir, label_by_line, mode='proof', solver=Non
     return dict(unit=unit.NAME, harness=name, fn=h['fn'], mode=mode, status=status, wall_s=round(time.time() - t0, 2),
                 solver_s=round(dt, 2), results=res, failures=fails, guards=guards, log=base + '.cbmc.log',
                 cmd=' '.join(gi) + ' && ' + ' '.join(cb), replace=h.get('replace', []), flags=h.get('flags', []))
+
+
+def reachable_functions(low, prof, root):
+    """names of the unit's functions reachable from `root` through calls in the lowered text"""
+    pre = (prof.CLS + '_') if prof.CLS else ''
+    body = {}
+    for b in low['bodies']:
+        m = re.search(r'\b%s(\w+)\(' % re.escape(pre), b[0])
+        if m:
+            body[m.group(1)] = '\n'.join(b[1:])
+    names = set(body) | set(getattr(prof, 'fn_unlowered', {}))
+    seen, todo = set(), [root]
+    while todo:
+        f = todo.pop()
+        if f in seen:
+            continue
+        seen.add(f)
+        for g in names:
+            if g not in seen and re.search(r'\b%s%s\(' % (re.escape(pre), re.escape(g)), body.get(f, '')):
+                todo.append(g)
+    return seen
 
 
 def prepare_unit(unit_name, workdir):
